@@ -84,9 +84,8 @@ package verifier
 //@   safety
 //@   call (Store).StoreRevocation #1 requires [issuer-only]
 //@           isNilIface(ret(call credential.ValidateRevocation #1)) && arg(call credential.ValidateRevocation #1, 0) == revocation
-//@        && subjectIssuer == revocation.Issuer.String() && vmIssuer == revocation.Issuer.String()
-//@        && subjectIssuer == strings.Split(revocation.Subject.String(), "#")[0]
-//@        && vmIssuer == strings.Split(revocation.Proof.VerificationMethod.String(), "#")[0]
+//@        && strings.Split(revocation.Subject.String(), "#")[0] == revocation.Issuer.String()
+//@        && strings.Split(revocation.Proof.VerificationMethod.String(), "#")[0] == revocation.Issuer.String()
 //@        && isNilIface(ret(call (resolver.KeyResolver).ResolveKeyByID #1).1)
 //@        && arg(call (resolver.KeyResolver).ResolveKeyByID #1, 1) == revocation.Proof.VerificationMethod.String()
 //@        && arg(call (resolver.KeyResolver).ResolveKeyByID #1, 3) == resolver.NutsSigningKeyType
